@@ -1,6 +1,8 @@
 package main
 
 import (
+	"go/types"
+	"go/ast"
 	"fmt"
 	"go/token"
 	"strings"
@@ -92,6 +94,140 @@ func ruleM1(c *Ctx, id string) {
 			R.Fail(id, spec+"|length test", P.Pos(fn.Pos()), "the function bounds the name length", "no length test: names longer than the entry are encoded")
 		}
 	}
+	// every other comparison with the named limit treats it as inclusive, too (decoders, clamps, callers)
+	var maxObj types.Object
+	if dp := P.Pkg("dir"); dp != nil && dp.Types != nil {
+		maxObj = dp.Types.Scope().Lookup("MAXNAMELEN")
+	}
+	if maxObj == nil {
+		return
+	}
+	for _, pk := range P.Pkgs {
+		if pk.TypesInfo == nil {
+			continue
+		}
+		for _, file := range pk.Syntax {
+			if strings.HasSuffix(P.Fset.Position(file.Pos()).Filename, "_test.go") {
+				continue
+			}
+			var encl string
+			ast.Inspect(file, func(nd ast.Node) bool {
+				if fd, ok := nd.(*ast.FuncDecl); ok {
+					encl = fd.Name.Name
+				}
+				be, ok := nd.(*ast.BinaryExpr)
+				if !ok {
+					return true
+				}
+				isMax := func(e ast.Expr) bool {
+					for {
+						if p, ok := e.(*ast.ParenExpr); ok {
+							e = p.X
+							continue
+						}
+						if cl, ok := e.(*ast.CallExpr); ok && len(cl.Args) == 1 {
+							if tv, ok := pk.TypesInfo.Types[cl.Fun]; ok && tv.IsType() {
+								e = cl.Args[0]
+								continue
+							}
+						}
+						break
+					}
+					switch x := e.(type) {
+					case *ast.Ident:
+						return pk.TypesInfo.Uses[x] == maxObj
+					case *ast.SelectorExpr:
+						return pk.TypesInfo.Uses[x.Sel] == maxObj
+					}
+					return false
+				}
+				op := be.Op
+				other := be.X
+				switch {
+				case isMax(be.Y):
+				case isMax(be.X):
+					op = flipOp(op)
+					other = be.Y
+				default:
+					return true
+				}
+				// only comparisons of a length: len(x), or a variable assigned from a decoded integer (GetInt)
+				isLen := func(e ast.Expr) bool {
+					for {
+						if p, ok := e.(*ast.ParenExpr); ok {
+							e = p.X
+							continue
+						}
+						if cl, ok := e.(*ast.CallExpr); ok && len(cl.Args) == 1 {
+							if tv, ok := pk.TypesInfo.Types[cl.Fun]; ok && tv.IsType() {
+								e = cl.Args[0]
+								continue
+							}
+							if id, ok := cl.Fun.(*ast.Ident); ok && id.Name == "len" {
+								return true
+							}
+						}
+						break
+					}
+					id, ok := e.(*ast.Ident)
+					if !ok {
+						return false
+					}
+					obj := pk.TypesInfo.ObjectOf(id)
+					found := false
+					isGetInt := func(e ast.Expr) bool {
+						if cl, ok := e.(*ast.CallExpr); ok {
+							if se, ok := cl.Fun.(*ast.SelectorExpr); ok && se.Sel.Name == "GetInt" {
+								return true
+							}
+						}
+						return false
+					}
+					ast.Inspect(file, func(n2 ast.Node) bool {
+						if vs, ok := n2.(*ast.ValueSpec); ok && len(vs.Names) == len(vs.Values) {
+							for i, nm := range vs.Names {
+								if pk.TypesInfo.ObjectOf(nm) == obj && isGetInt(vs.Values[i]) {
+									found = true
+								}
+							}
+							return true
+						}
+						as, ok := n2.(*ast.AssignStmt)
+						if !ok || len(as.Lhs) != len(as.Rhs) {
+							return true
+						}
+						for i, l := range as.Lhs {
+							li, ok := l.(*ast.Ident)
+							if !ok || pk.TypesInfo.ObjectOf(li) != obj {
+								continue
+							}
+							if cl, ok := as.Rhs[i].(*ast.CallExpr); ok {
+								if se, ok := cl.Fun.(*ast.SelectorExpr); ok && se.Sel.Name == "GetInt" {
+									found = true
+								}
+							}
+						}
+						return true
+					})
+					return found
+				}
+				if !isLen(other) {
+					return true
+				}
+				switch op {
+				case token.GTR, token.LEQ, token.EQL, token.NEQ:
+					R.Pass(id, relPkgPath(pk.PkgPath)+"."+encl+"|MAXNAMELEN inclusive", P.Pos(be.Pos()), "a length is compared with the limit as len > MAXNAMELEN / len <= MAXNAMELEN", "inclusive")
+				case token.GEQ, token.LSS:
+					R.Fail(id, relPkgPath(pk.PkgPath)+"."+encl+"|MAXNAMELEN inclusive", P.Pos(be.Pos()), "a length is compared with the limit as len > MAXNAMELEN / len <= MAXNAMELEN", fmt.Sprintf("the comparison is 'x %s MAXNAMELEN': the advertised maximum itself is treated as too long here (a name of exactly name_max bytes is cut or refused on this path)", op))
+				}
+				return true
+			})
+		}
+	}
+}
+
+func relPkgPath(p string) string {
+	return strings.TrimPrefix(strings.TrimPrefix(p, modPath), "/")
 }
 
 func ruleM2(c *Ctx, id string) {
@@ -128,6 +264,29 @@ func ruleM2(c *Ctx, id string) {
 	}
 	if !found {
 		R.Fail(id, "NFSPROC3_WRITE|count test", P.Pos(w.Pos()), "WRITE bounds its count", "no comparison of args.Count with a constant")
+	}
+	// the quantity that was bounded is the quantity written
+	if c.V.InodeWrite != nil {
+		for _, call := range P.CallsIn(w, funcIs(c.V.InodeWrite)) {
+			cnt := argN(call, 2) // Write(atxn, offset, count, data): receiver is operand 0 of the call's args
+			if cc := callCommon(call); cc != nil && len(cc.Args) >= 5 {
+				cnt = cc.Args[3]
+			}
+			isCount := false
+			v := cnt
+			for {
+				if _, path := paramFieldPath(v); path == "Count" {
+					isCount = true
+					break
+				}
+				if cv, ok := v.(*ssa.Convert); ok {
+					v = cv.X
+					continue
+				}
+				break
+			}
+			R.Check(isCount, id, "NFSPROC3_WRITE|writes the bounded count", P.Pos(call.Pos()), "the byte count handed to Inode.Write is the request's Count, the field the wtmax test bounds", "args.Count", "the limit is tested on one quantity (Count) and another one is written (e.g. len(Data)): a request with a small count and a large opaque body writes more than wtmax")
+		}
 	}
 }
 
